@@ -167,7 +167,9 @@ def rows_work(rows):
 def kill_run(policy, order):
   from vf import sched
   from openhtf.util import threads
-  s = sched.Sched(policy=policy, max_steps=20000)
+  lines = order.endswith('-lines')      # every statement of threads.py is a scheduling point as well
+  order = order.replace('-lines', '')
+  s = sched.Sched(policy=policy, max_steps=40000, trace_files=('openhtf/util/threads.py',) if lines else ())
   box = {}
 
   def main():
@@ -211,7 +213,11 @@ def kill_run(policy, order):
 
     def killer():
       s.emit('kill-call')
-      t.kill()
+      try:
+        t.kill()
+      except BaseException as e:  # pylint: disable=broad-except
+        s.emit('kill-raised', type(e).__name__)
+        return
       s.emit('kill-ret')
     if order == 'kill-first':
       killer()
@@ -229,7 +235,10 @@ def kill_run(policy, order):
   return s, box
 
 
-def judge_kill(log):
+def judge_kill(log, lines=False):
+  """lines: the run had statement-level scheduling points; the two rules about WHERE an already
+  requested asynchronous exception lands are not judged then (between the lock probe and the
+  raise the body may return: the window the class docstring admits)"""
   bad = []
   names = [e[0] for e in log]
   idx = {n: names.index(n) for n in set(names)}
@@ -241,14 +250,16 @@ def judge_kill(log):
   if kc is not None and rel is not None and kc > rel:
     if 'body-exc' in idx or 'handler-exc' in idx or 'finished' not in idx:
       bad.append('a kill requested after the body returned had an effect')
+  if 'kill-raised' in idx:
+    bad.append('kill() raised %s in the killing thread' % log[idx['kill-raised']][1])
   kid = next((e[1] for e in log if e[0] == 'killed-event'), None)
   flag = next((i for i, e in enumerate(log) if e[0] == 'set' and e[1] == kid), None)
   acq = next((i for i, e in enumerate(log) if e[0] == 'acq' and e[1] == 'running' and e[2] == 'T'), None)
   if flag is not None and (acq is None or flag < acq) and 'body-start' in idx:
     bad.append('the kill flag was set before the thread took its running lock, yet the body ran (kill lost)')
-  if 'handler-exc' in idx:
+  if 'handler-exc' in idx and not lines:
     bad.append('ThreadTerminationError surfaced in the finish handler, outside the body')
-  if 'async_exc' in idx and 'body-exc' not in idx and 'handler-exc' not in idx:
+  if 'async_exc' in idx and 'body-exc' not in idx and 'handler-exc' not in idx and not lines:
     bad.append('an asynchronous kill was delivered but never raised in the thread')
   if 'finished' not in idx:
     bad.append('the finish handler did not complete')
@@ -286,7 +297,7 @@ def kill_explore_judged(args):
     if failure is not None:
       bad.append(('kill/start/run threads never finish (%s)' % type(failure).__name__, dict(order=order, schedule=picks)))
       continue
-    for b in judge_kill(last['log']):
+    for b in judge_kill(last['log'], lines=order.endswith('-lines')):
       if len(bad) < 10:
         bad.append((b, dict(order=order, schedule=picks, log=[list(map(str, e)) for e in last['log']])))
   return n, bad
@@ -378,7 +389,7 @@ def main(chk):
         chk.violation(sig, dict(row=r))
     chk.sample(dict(part='timeout row', row=rows[3]))
     chk.log('%d timeout rows replayed in virtual time' % len(rows))
-    jobs = [('kill-first', 2), ('concurrent', 3 if quick else 4)]
+    jobs = [('kill-first', 2), ('concurrent', 3 if quick else 4), ('concurrent-lines', 2 if quick else 3)]
     for (order, bound), (n, bad) in zip(jobs, pool.map(kill_explore_judged, jobs)):
       chk.traces += n
       chk.nontrivial += n
